@@ -3,15 +3,26 @@
   Here: the conversion `toJVal` (ToGoValue + what json.Marshal needs) terminates on every heap,
   keeps empty containers, rejects cycles and inexpressible values; partial round trip with
   `newValueJson`.
-  All theorems are at the level of the JSON TREE (`JVal`) handed to the encoder.  Nothing here
-  relates the BYTES of `Json.marshalIndent` to the decoder: "the text written is valid JSON and
-  parses back" (string escapes, non-ASCII text, every finite double) has no theorem in this file.
+  Sections 1-5 are at the level of the JSON TREE (`JVal`) handed to the encoder.  Section 6
+  relates the BYTES of `Json.marshalIndent` to the decoder: strings (all escape classes, exact
+  iff valid UTF-8), scalars, white space, and by induction on the tree the whole text
+  (`bytes_round_trip_partial`, `decoded_rewritten`, `file_round_trip_partial`), for nesting depth
+  up to 10000 and under ONE explicit hypothesis on number leaves (the formatted number is a
+  grammatical JSON number in range: a property of Go's float formatting that is tested
+  differentially, not proved).
 -/
 import Jqawk.Model.Driver
 import Jqawk.Model.Natives
 import Jqawk.Lemmas.Render
 import Jqawk.Lemmas.Reach
 import Jqawk.Lemmas.NewValue
+import Jqawk.Lemmas.JsonBytesCanon
+import Jqawk.Lemmas.JsonBytesNorm
+import Jqawk.Lemmas.JsonBytesSorted
+import Jqawk.Lemmas.JsonBytesDepth
+import Jqawk.Lemmas.JsonBytesNums
+import Jqawk.Lemmas.JsonBytesUtf8
+import Jqawk.Lemmas.JsonBytesFinite
 
 namespace Jqawk.C04
 open Jqawk
@@ -249,5 +260,411 @@ example : (JVal.obj [(b!"b", .arr [.num b!"1e2", .obj []]), (b!"a", .str b!"x")]
 example : (match newValueJson (.obj [(b!"b", .arr [.null, .obj []]), (b!"a", .str b!"x")]) default with
     | .ok v s' => (match toJValTop s'.heap v with | .ok j => Json.marshalIndent j | _ => [])
     | _ => []) = b!"{\n  \"a\": \"x\",\n  \"b\": [\n    null,\n    {}\n  ]\n}" := by rfl
+
+/-! ### 6. bytes: what `marshalIndent` writes, the decoder reads back
+
+  Sections 1–5 are about the JSON TREE.  Here: the BYTES `Json.marshalIndent` produces (the text
+  `-o` writes to the file and `json()` returns) are fed to `Json.decodeOne`, the model of one
+  `json.Decoder.Decode` call.  Vocabulary (Lemmas/JsonBytes*.lean):
+  `quoteBody s` = the bytes written between the quotes for the string `s`;
+  `sanitize s` = Go's coercion to valid UTF-8 (each byte that does not start a well-formed
+  sequence becomes EF BF BD); `validUtf8 0 s` = Go `utf8.Valid`, a `Bool`;
+  `NumLit f lit` = the HYPOTHESIS on a number literal (see `bytes_round_trip_partial`);
+  `depth j` = nesting depth; `canonJ j` = `j` with every object replaced by the Go map it denotes
+  (keys ascending, last duplicate wins); `reread j` = `canonJ j` computed with re-read
+  (sanitized) strings and keys.  `f` is the decoder's `numOk` parameter; `t` the reader's state
+  after these bytes (more / eof / error). -/
+
+open Jqawk.Json Jqawk.JsonBytes
+
+/-- (1) STRINGS, the two loops.  For EVERY byte string `s`, valid UTF-8 or not: the text written
+    is `"` `quoteBody s` `"`, and Go's `unquote` applied to `quoteBody s` gives `sanitize s`.  Says
+    nothing yet about the scanner accepting the text (next theorems). -/
+theorem string_unquote_quote (s : Bytes) :
+    marshalIndent (.str s) = 0x22 :: quoteBody s ++ [0x22] ∧ unquote (quoteBody s) = sanitize s :=
+  ⟨by rw [marshalIndent_eq]; rfl, unquote_quoteBody s⟩
+
+/-- (1) valid UTF-8 is unchanged by the coercion — the explicit decidable hypothesis under which
+    the string round trip is exact -/
+theorem sanitize_of_valid (s : Bytes) (h : validUtf8 0 s = true) : sanitize s = s :=
+  sanitize_valid s h
+
+/-- (1) STRINGS as a whole document: the written string followed by at least one byte (any byte:
+    the scanner reports a top-level scalar when it sees the byte after it), any reader state,
+    decodes to the coerced string and leaves exactly the following bytes.  All escape classes of
+    the writer are covered because `s` is arbitrary. -/
+theorem string_bytes_general (f : Bytes → Bool) (s : Bytes) (c : UInt8) (cs : Bytes) (t : Tail) :
+    decodeOne f (marshalIndent (.str s) ++ c :: cs) t = .value (.str (sanitize s)) (c :: cs) := by
+  simpa [reread] using top_scalar f (.str s) (Or.inr (Or.inr ⟨s, rfl⟩)) c cs t
+
+/-- (1) the exact round trip for valid UTF-8, with following bytes and at end of input -/
+theorem string_bytes_round_trip (f : Bytes → Bool) (s : Bytes) (h : validUtf8 0 s = true) :
+    (∀ c cs t, decodeOne f (marshalIndent (.str s) ++ c :: cs) t = .value (.str s) (c :: cs)) ∧
+    decodeOne f (marshalIndent (.str s)) .eof = .value (.str s) [] := by
+  constructor
+  · intro c cs t; rw [string_bytes_general, sanitize_valid s h]
+  · have := top_eof f (.str s) trivial (by simp [depth])
+    simpa [reread, sanitize_valid s h] using this
+
+/-- (1) and ONLY valid UTF-8 comes back: the hypothesis of `string_bytes_round_trip` is necessary —
+    the written text decodes to `s` itself exactly when `validUtf8 0 s` -/
+theorem string_bytes_round_trip_iff (f : Bytes → Bool) (s : Bytes) :
+    decodeOne f (marshalIndent (.str s)) .eof = .value (.str s) [] ↔ validUtf8 0 s = true := by
+  constructor
+  · intro h
+    have h2 := top_eof f (.str s) trivial (by simp [depth])
+    rw [h2] at h
+    simp only [reread, DecodeRes.value.injEq, JVal.str.injEq, and_true] at h
+    exact valid_of_sanitize s h
+  · intro h; exact (string_bytes_round_trip f s h).2
+
+/-- (1) the decoder positioned ANYWHERE a string may stand, any following bytes: as a value inside
+    an array or object (the value is delivered to the enclosing frame: appended to the array /
+    stored under the pending key) and as an object key (it becomes the pending key) -/
+theorem string_bytes_anywhere (f : Bytes → Bool) (s : Bytes) (t : Tail) (fs : List Json.Frame) (dp : Nat)
+    (lit : Bytes) (bad : Bool) (rest : Bytes) :
+    (∀ st, st = Json.Step.beginValue ∨ st = Json.Step.beginValueOrEmpty → ∀ acc,
+      run f ⟨st, .arr acc :: fs, dp, lit, bad⟩ (marshalIndent (.str s) ++ rest) t
+        = run f ⟨.endValue, .arr (.str (sanitize s) :: acc) :: fs, dp, [], bad⟩ rest t) ∧
+    (∀ ms k, run f ⟨.beginValue, .obj ms k true :: fs, dp, lit, bad⟩ (marshalIndent (.str s) ++ rest) t
+        = run f ⟨.endValue, .obj (insertMember k (.str (sanitize s)) ms) [] true :: fs, dp, [], bad⟩ rest t) ∧
+    (∀ st, st = Json.Step.beginString ∨ st = Json.Step.beginStringOrEmpty → ∀ ms k0,
+      run f ⟨st, .obj ms k0 false :: fs, dp, lit, bad⟩ (marshalIndent (.str s) ++ rest) t
+        = run f ⟨.endValue, .obj ms (sanitize s) false :: fs, dp, [], bad⟩ rest t) :=
+  ⟨fun st hst acc => run_str_value f s t st hst (.arr acc) fs dp lit bad rest,
+   fun ms k => run_str_value f s t .beginValue (Or.inl rfl) (.obj ms k true) fs dp lit bad rest,
+   fun st hst ms k0 => run_str_key f s t st hst ms k0 fs dp lit bad rest⟩
+
+/-- the escape classes the writer emits, on one string: quote, backslash, \n \r \t, another
+    control, `<` `>` `&`, U+2028, U+2029, a two-, a three- and a four-byte character -/
+example : marshalIndent (.str ([0x22, 0x5C, 0x0A, 0x0D, 0x09, 0x01, 0x3C, 0x3E, 0x26,
+      0xE2, 0x80, 0xA8, 0xE2, 0x80, 0xA9, 0xC3, 0xA9, 0xE2, 0x82, 0xAC, 0xF0, 0x9F, 0x98, 0x80]))
+    = b!"\"\\\"\\\\\\n\\r\\t\\u0001\\u003c\\u003e\\u0026\\u2028\\u2029" ++ [0xC3, 0xA9, 0xE2, 0x82, 0xAC, 0xF0, 0x9F, 0x98, 0x80, 0x22] := by
+  decide +kernel
+example : validUtf8 0 [0x22, 0x5C, 0x0A, 0x0D, 0x09, 0x01, 0x3C, 0x3E, 0x26,
+      0xE2, 0x80, 0xA8, 0xE2, 0x80, 0xA9, 0xC3, 0xA9, 0xE2, 0x82, 0xAC, 0xF0, 0x9F, 0x98, 0x80] = true := by
+  decide +kernel
+
+/-- FINDING (what happens without the hypothesis): a byte string that is not valid UTF-8 does NOT
+    come back — the writer emits `\ufffd` for each offending byte (Go does the same), so the
+    value read is different, and two different strings can be written identically -/
+example : validUtf8 0 [0x61, 0xFF] = false ∧ marshalIndent (.str [0x61, 0xFF]) = b!"\"a\\ufffd\"" ∧
+    sanitize [0x61, 0xFF] = [0x61, 0xEF, 0xBF, 0xBD] ∧
+    marshalIndent (.str [0x61, 0xFF]) = marshalIndent (.str [0x61, 0xC0]) := by decide +kernel
+
+/-- (2) SCALARS: `null`, `true`, `false` written and read back, followed by any byte (any reader
+    state), and at end of input -/
+theorem scalar_bytes_round_trip (f : Bytes → Bool) (j : JVal) (hj : j = .null ∨ j = .bool true ∨ j = .bool false) :
+    (∀ c cs t, decodeOne f (marshalIndent j ++ c :: cs) t = .value j (c :: cs)) ∧
+    decodeOne f (marshalIndent j) .eof = .value j [] := by
+  rcases hj with rfl | rfl | rfl
+  · exact ⟨fun c cs t => by simpa [reread] using top_scalar f .null (Or.inl rfl) c cs t,
+      by simpa [reread] using top_eof f .null trivial (by simp [depth])⟩
+  · exact ⟨fun c cs t => by simpa [reread] using top_scalar f (.bool true) (Or.inr (Or.inl ⟨_, rfl⟩)) c cs t,
+      by simpa [reread] using top_eof f (.bool true) trivial (by simp [depth])⟩
+  · exact ⟨fun c cs t => by simpa [reread] using top_scalar f (.bool false) (Or.inr (Or.inl ⟨_, rfl⟩)) c cs t,
+      by simpa [reread] using top_eof f (.bool false) trivial (by simp [depth])⟩
+
+example : marshalIndent .null = b!"null" ∧ marshalIndent (.bool true) = b!"true" ∧
+    marshalIndent (.bool false) = b!"false" := by decide
+
+/-- (3) WHITE SPACE (the writer's newlines and indentation): in every state between tokens the
+    scanner skips any run of space, tab, CR, LF without changing its state -/
+theorem decoder_skips_whitespace (f : Bytes → Bool) (t : Tail) (st : Json.Step) (h : SkipsWs st)
+    (stk : List Json.Frame) (dp : Nat) (lit : Bytes) (bad : Bool) (ws rest : Bytes)
+    (hws : ∀ x ∈ ws, isSpace x = true) :
+    run f ⟨st, stk, dp, lit, bad⟩ (ws ++ rest) t = run f ⟨st, stk, dp, lit, bad⟩ rest t :=
+  run_ws f t st h stk dp lit bad ws rest hws
+
+example : SkipsWs .beginValue ∧ SkipsWs .endValue ∧ ∀ x ∈ b!"\n    ", isSpace x = true := by
+  refine ⟨Or.inl rfl, Or.inr (Or.inr (Or.inr (Or.inr rfl))), by decide⟩
+
+/-- (3) STRUCTURE, general form (any strings).  PROVED: by induction on the tree, through the
+    decoder's state machine — brackets, commas, colons, indentation, strings, keys, `null`/`true`/
+    `false`, the map the decoder builds.  HYPOTHESES: (a) `NumsOK f j`: every NUMBER leaf `lit`
+    satisfies `NumLit f lit`, i.e. starts with `-` or a digit and `decodeOne f lit .eof =
+    .value (.num lit) []` (the decoder reads the literal, alone, back as itself) — for the literals
+    `F64.jsonFormat` produces this is the shortest-round-trip property of Go's float formatting,
+    tested differentially, NOT proved; (b) nesting depth at most 10000 (`deep_nesting_rejected` below:
+    beyond that the decoder refuses, and Go's `MarshalIndent` too).  CONCLUSION: the whole text is
+    consumed (`[]` left at end of input) and the value is `reread j`. -/
+theorem bytes_reread_partial (f : Bytes → Bool) (j : JVal) (hnum : NumsOK f j)
+    (hdepth : depth j ≤ maxNestingDepth) :
+    decodeOne f (marshalIndent j) .eof = .value (reread j) [] :=
+  top_eof f j hnum hdepth
+
+/-- (3) STRUCTURE, the round trip proper: with hypotheses (a), (b) of `bytes_reread_partial` and
+    (c) every string and key valid UTF-8 (`Utf8OK`, decidable leaf by leaf), decoding
+    `marshalIndent j` consumes all bytes and yields `canonJ j`: `j` up to key order and duplicate
+    keys (the members of every object sorted bytewise by key, the last of equal keys kept — the
+    Go map).  Number leaves are literal texts in `JVal`, so they come back verbatim: `canonJ` does
+    not re-format them (unlike `JVal.norm` of section 5).  "_partial": (a) is assumed. -/
+theorem bytes_round_trip_partial (f : Bytes → Bool) (j : JVal) (hnum : NumsOK f j)
+    (hutf8 : Utf8OK j) (hdepth : depth j ≤ maxNestingDepth) :
+    decodeOne f (marshalIndent j) .eof = .value (canonJ j) [] := by
+  rw [← reread_eq_canonJ j hutf8]; exact top_eof f j hnum hdepth
+
+/-- (3) if moreover the keys of every object are strictly ascending (`SortedJ`: true of every tree
+    whose objects were built with `insertMember`, see `canonMembers_sorted`), the value read is `j`
+    itself -/
+theorem bytes_round_trip_sorted_partial (f : Bytes → Bool) (j : JVal) (hnum : NumsOK f j)
+    (hutf8 : Utf8OK j) (hsorted : SortedJ j) (hdepth : depth j ≤ maxNestingDepth) :
+    decodeOne f (marshalIndent j) .eof = .value j [] := by
+  rw [bytes_round_trip_partial f j hnum hutf8 hdepth, canonJ_of_sorted j hsorted]
+
+/-- (3) arrays and objects end at their closing bracket: the same with ANY bytes after the text
+    and any reader state (more than the file-level statement: a stream of documents) -/
+theorem bytes_round_trip_stream_partial (f : Bytes → Bool) (j : JVal)
+    (hc : (∃ xs, j = .arr xs) ∨ ∃ ms, j = .obj ms) (hnum : NumsOK f j) (hutf8 : Utf8OK j)
+    (hdepth : depth j ≤ maxNestingDepth) (rest : Bytes) (t : Tail) :
+    decodeOne f (marshalIndent j ++ rest) t = .value (canonJ j) rest := by
+  rw [← reread_eq_canonJ j hutf8]; exact top_composite f j hc hnum hdepth rest t
+
+/-- the Go map of a member list is strictly ascending by key, and building it again changes
+    nothing (so `canonJ` is idempotent on members, and decoded objects satisfy `SortedKeys`) -/
+theorem canonMembers_sorted_idem (ms : List (Bytes × JVal)) :
+    SortedKeys (canonMembers ms) ∧ canonMembers (canonMembers ms) = canonMembers ms :=
+  ⟨canonMembers_sorted ms, canonMembers_idem ms⟩
+
+/-- hypothesis (a) holds for every integer literal without sign and leading zero that `numOk`
+    accepts (proved through the scanner's number states): the hypothesis is not vacuous, and for
+    this class it is a theorem -/
+theorem numLit_digits (f : Bytes → Bool) (b : UInt8) (ds : Bytes) (hb : isDigit b = true) (hb0 : b ≠ 0x30)
+    (hd : ∀ x ∈ ds, isDigit x = true) (hf : f (b :: ds) = true) : NumLit f (b :: ds) :=
+  numLit_of_digits f b ds hb hb0 hd hf
+
+/-- hypothesis (a) is exactly: the literal matches the JSON number grammar (`numGrammar`: a
+    finite automaton, `-`? integer part without leading zero, optional fraction, optional
+    exponent) and `numOk` (no float64 range error) accepts it.  So what `bytes_round_trip_partial`
+    assumes about `F64.jsonFormat` is: its output is a grammatical number within range; that it
+    denotes the SAME double (shortest round trip) is not needed for the bytes to come back, only
+    for the value `F64.parse` gives afterwards (`JVal.norm`, section 5). -/
+theorem numLit_iff_grammar (f : Bytes → Bool) (lit : Bytes) :
+    NumLit f lit ↔ (numGrammar lit = true ∧ f lit = true) :=
+  numLit_iff f lit
+
+/-- the shapes `jsonFormat` produces: integer, negative, fraction, exponent with sign; and some
+    non-literals -/
+example : NumLit numOk b!"-0" ∧ NumLit numOk b!"0.000001" ∧ NumLit numOk b!"-1.5e-7" ∧
+    NumLit numOk b!"1e+21" ∧ ¬ NumLit numOk b!"01" ∧ ¬ NumLit numOk b!"1." ∧ ¬ NumLit numOk b!"+1" ∧
+    ¬ NumLit numOk b!"1e400" ∧ ¬ NumLit numOk b!"NaN" := by
+  simp only [numLit_iff_grammar]
+  decide +kernel
+
+/-- (2') a NUMBER literal as a whole document: under `NumLit` it is read back at end of input (that
+    is the hypothesis) and also when followed by any byte that cannot continue a number
+    (`numDelim`: not a digit, `.`, `e`, `E`, `+`, `-`) and then anything; exactly those bytes remain -/
+theorem number_bytes_round_trip_partial (f : Bytes → Bool) (lit : Bytes) (h : NumLit f lit) :
+    decodeOne f (marshalIndent (.num lit)) .eof = .value (.num lit) [] ∧
+    ∀ t c cs, numDelim c = true →
+      decodeOne f (marshalIndent (.num lit) ++ c :: cs) t = .value (.num lit) (c :: cs) := by
+  have e : marshalIndent (.num lit) = lit := by rw [marshalIndent_eq]; rfl
+  rw [e]
+  exact ⟨h.2, fun t c cs hc => top_num f lit h t c cs hc⟩
+
+example : numDelim 0x0A = true ∧ numDelim 0x20 = true ∧ numDelim 0x2C = true ∧ numDelim 0x5D = true ∧
+    numDelim 0x30 = false ∧ numDelim 0x65 = false := by decide
+
+example : NumLit numOk b!"1200" :=
+  numLit_digits numOk 0x31 b!"200" (by decide) (by decide) (by decide) (by decide +kernel)
+
+/-- non-vacuity of `bytes_round_trip_partial` / `_sorted_partial`: a document with an object,
+    unsorted and duplicate keys, an array, numbers, an escaped string, empty containers -/
+example : let j : JVal := .obj [(b!"b", .arr [.num b!"12", .null, .obj []]), (b!"a", .str b!"x<y\n"),
+      (b!"b", .arr [.num b!"7", .bool true, .arr []])]
+    NumsOK numOk j ∧ Utf8OK j ∧ depth j ≤ maxNestingDepth ∧
+    canonJ j = .obj [(b!"a", .str b!"x<y\n"), (b!"b", .arr [.num b!"7", .bool true, .arr []])] ∧
+    SortedJ (canonJ j) := by
+  refine ⟨?_, ?_, by decide, by rfl, ?_⟩
+  · simp only [NumsOK, NumsOKMembers, NumsOKList, and_true, true_and]
+    exact ⟨numLit_digits numOk 0x31 b!"2" (by decide) (by decide) (by decide) (by decide +kernel),
+      numLit_digits numOk 0x37 [] (by decide) (by decide) (by decide) (by decide +kernel)⟩
+  · simp only [Utf8OK, Utf8OKMembers, Utf8OKList, and_true, true_and]
+    decide +kernel
+  · have e : canonJ (.obj [(b!"b", .arr [.num b!"12", .null, .obj []]), (b!"a", .str b!"x<y\n"),
+        (b!"b", .arr [.num b!"7", .bool true, .arr []])])
+        = .obj [(b!"a", .str b!"x<y\n"), (b!"b", .arr [.num b!"7", .bool true, .arr []])] := by rfl
+    rw [e]
+    simp only [SortedJ, SortedJMembers, SortedJList, SortedKeys, List.pairwise_cons, and_true]
+    simp
+    decide
+
+/-- FINDING (a deviation of the MODEL from Go): hypothesis (b) is needed.  `nest n` = `n + 1` arrays
+    inside each other; from 10001 levels on, the model's `marshalIndent` still produces a text, and
+    the decoder answers that text with an error, whatever follows.  Real Go never gets that far:
+    `json.Marshal` succeeds, but `json.MarshalIndent` runs the same scanner in its indent pass and
+    returns the error "exceeded max depth" (checked with go1.23: 10000 levels are written and read
+    back, 10001 levels make `MarshalIndent` fail), so jqawk's `GetRootJson`/`json()` report an error
+    there.  `Json.marshalIndent` has no error result; the model therefore differs from Go exactly
+    for values nested deeper than 10000 (a program can build one in a loop).  The theorems of this
+    section are about the model and assume `depth j ≤ 10000`, where model and Go agree. -/
+theorem deep_nesting_rejected (f : Bytes → Bool) (t : Tail) (n : Nat) (h : 10000 ≤ n) (rest : Bytes) :
+    depth (nest n) = n + 1 ∧ decodeOne f (marshalIndent (nest n) ++ rest) t = .error :=
+  ⟨depth_nest n, nest_rejected f t n h rest⟩
+
+/-- `-o`: the bytes `GetRootJson` hands to the file are `marshalIndent` of the converted root, and
+    — under hypotheses (a), (b) on that tree — reading the file back yields `reread` of it, all
+    bytes consumed.  (With section 5: for a document just read, the tree is `j.norm`.) -/
+theorem getRootJson_bytes_partial (s : Jqawk.St) (bytes : Bytes) (h : getRootJson s = some bytes) :
+    ∃ c j, s.root = some c ∧ toJValTop s.heap (s.heap.get c) = .ok j ∧ bytes = marshalIndent j ∧
+      (NumsOK numOk j → depth j ≤ maxNestingDepth →
+        decodeOne numOk bytes .eof = .value (reread j) []) := by
+  unfold getRootJson at h
+  cases hr : s.root with
+  | none => simp [hr] at h
+  | some c =>
+    simp only [hr] at h
+    cases ht : toJValTop s.heap (s.heap.get c) with
+    | ok j =>
+      simp only [ht, Option.some.injEq] at h
+      exact ⟨c, j, rfl, ht, h.symm, fun h1 h2 => by rw [← h]; exact top_eof numOk j h1 h2⟩
+    | error m => simp [ht] at h
+    | oof => simp [ht] at h
+
+/-- `json(v)`: the string the builtin returns is `marshalIndent` of the converted argument, the
+    state is unchanged, and — under hypotheses (a), (b) on that tree — the string decodes to `reread`
+    of it, all bytes consumed (with `Utf8OK`: to `canonJ` of it, by `bytes_round_trip_partial`) -/
+theorem nativeJson_bytes_partial (args : List Val) (this : Option Val) (s s' : Jqawk.St) (r : Val)
+    (h : callNative .json args this s = .ok (.ok (some r)) s') :
+    ∃ j, toJValTop s.heap (args.getD 0 .unknown) = .ok j ∧ r = .str (marshalIndent j) none ∧ s' = s ∧
+      (NumsOK numOk j → depth j ≤ maxNestingDepth →
+        decodeOne numOk (marshalIndent j) .eof = .value (reread j) []) := by
+  simp only [callNative, bind, EM.bind, getHeap] at h
+  cases hc : checkArgCount args 1 with
+  | error m => simp [hc, pure, EM.pure] at h
+  | ok u =>
+    simp only [hc] at h
+    cases ht : toJValTop s.heap (args.getD 0 .unknown) with
+    | oof => rw [ht] at h; simp [oof] at h
+    | error m => rw [ht] at h; simp [pure, EM.pure] at h
+    | ok j =>
+      rw [ht] at h
+      simp only [pure, EM.pure, Res.ok.injEq, Except.ok.injEq, Option.some.injEq] at h
+      exact ⟨j, rfl, h.1.symm, h.2.symm, fun h1 h2 => top_eof numOk j h1 h2⟩
+
+example : (match callNative .json [.str b!"a<b" none] none default with
+    | .ok (.ok (some (.str bytes _))) _ => bytes | _ => []) = b!"\"a\\u003cb\"" := by decide +kernel
+
+/-- The clause "the JSON written through -o by a program that does not modify it parses to a
+    value equal to the input as read", at BYTE level, joined with section 5: a document `j` is built
+    in the heap (`newValueJson`), stored in a fresh root cell, written by `GetRootJson`; the bytes
+    written, decoded again, give `j.norm` — the same tree the tree-level theorem `newValue_roundtrip`
+    names — and are consumed completely.  PROVED from `Plain j` (distinct keys, finite numbers):
+    the keys of `j.norm` are strictly ascending at every level, so nothing is reordered or dropped
+    on re-reading; `Utf8OK j`/`depth j` carry over to `j.norm`.  HYPOTHESES: valid UTF-8 text, depth
+    ≤ 10000, and (NOT proved, "_partial") `NumsOK numOk j.norm`: every number literal as the encoder
+    re-formats it (`jsonFormat (parse lit)`) is read back by the decoder as itself. -/
+theorem document_bytes_round_trip_partial (j : JVal) (hj : j.Plain) (hu : Utf8OK j)
+    (hd : depth j ≤ maxNestingDepth) (hn : NumsOK numOk j.norm) (s s' : Jqawk.St) (v : Val)
+    (e : newValueJson j s = .ok v s') :
+    ∃ bytes, getRootJson { s' with heap := (s'.heap.alloc v).2, root := some (s'.heap.alloc v).1 } = some bytes ∧
+      bytes = marshalIndent j.norm ∧ decodeOne numOk bytes .eof = .value j.norm [] :=
+  ⟨_, newValue_getRootJson j hj s s' v e, rfl, norm_bytes_round_trip numOk j hj hu hd hn⟩
+
+/-- non-vacuity: a document with unsorted keys, a number the encoder re-formats (`1e2` → `100`),
+    an escaped string -/
+example : let j : JVal := .obj [(b!"b", .arr [.num b!"1e2", .null]), (b!"a", .str b!"x<\n")]
+    j.Plain ∧ Utf8OK j ∧ depth j ≤ maxNestingDepth ∧ NumsOK numOk j.norm := by
+  refine ⟨?_, ?_, by decide, ?_⟩
+  · simp only [JVal.Plain, JVal.PlainMembers, JVal.PlainList, List.pairwise_cons, List.Pairwise.nil]
+    refine ⟨⟨?_, ?_⟩, ⟨?_, trivial, trivial⟩, trivial, trivial⟩ <;> first | trivial | decide +kernel | simp
+  · simp only [Utf8OK, Utf8OKMembers, Utf8OKList, and_true, true_and]
+    decide +kernel
+  · have e : (JVal.obj [(b!"b", .arr [.num b!"1e2", .null]), (b!"a", .str b!"x<\n")]).norm
+        = .obj [(b!"a", .str b!"x<\n"), (b!"b", .arr [.num b!"100", .null])] := by rfl
+    rw [e]
+    simp only [NumsOK, NumsOKMembers, NumsOKList, and_true, true_and]
+    exact numLit_digits numOk 0x31 b!"00" (by decide) (by decide) (by decide) (by decide +kernel)
+
+/-- Every document the decoder returns — from ANY input bytes — has strictly ascending (hence
+    pairwise distinct) keys at every level: an invariant of the scanner state machine.  So the
+    hypothesis `SortedJ` of `bytes_round_trip_sorted_partial` holds for every document "as read". -/
+theorem decoded_sorted (f : Bytes → Bool) (inp : Bytes) (t : Tail) (v : JVal) (rest : Bytes)
+    (h : decodeOne f inp t = .value v rest) : SortedJ v :=
+  decodeOne_sorted f inp t v rest h
+
+/-- Every document the decoder returns has nesting depth at most 10000 (`pushParseState` refuses to
+    go deeper): hypothesis (b) holds for every document "as read". -/
+theorem decoded_depth (f : Bytes → Bool) (inp : Bytes) (t : Tail) (v : JVal) (rest : Bytes)
+    (h : decodeOne f inp t = .value v rest) : depth v ≤ maxNestingDepth :=
+  decodeOne_depth f inp t v rest h
+
+/-- Every number literal in a document the decoder returns satisfies `NumLit`: the scanner accepted
+    it as a grammatical number and `numOk` accepted it (otherwise `Decode` fails).  Hypothesis (a)
+    holds for every document "as read" (NOT for its `norm`, whose literals are re-formatted). -/
+theorem decoded_numsOK (f : Bytes → Bool) (inp : Bytes) (t : Tail) (v : JVal) (rest : Bytes)
+    (h : decodeOne f inp t = .value v rest) : NumsOK f v :=
+  decodeOne_numsOK f inp t v rest h
+
+/-- Every string and every key in a document the decoder returns is valid UTF-8: the scanner
+    validates the escapes of each literal, and `unquote` turns a validated literal into well-formed
+    UTF-8 (ill-formed input bytes and lone `\uD800`-surrogates become U+FFFD; `\uXXXX`, surrogate
+    pairs and raw multi-byte sequences are encoded by `utf8.EncodeRune`).  Hypothesis (c) holds for
+    every document "as read". -/
+theorem decoded_utf8 (f : Bytes → Bool) (inp : Bytes) (t : Tail) (v : JVal) (rest : Bytes)
+    (h : decodeOne f inp t = .value v rest) : Utf8OK v :=
+  decodeOne_utf8 f inp t v rest h
+
+/-- read → write → read, WITHOUT hypotheses: every document `v` the decoder returns — from ANY
+    input bytes, with any `numOk` — written with `marshalIndent` and decoded again comes back as the
+    very same tree, all bytes consumed.  (The decoder's output is a fixed point of write∘read: keys
+    sorted and distinct `decoded_sorted`, depth ≤ 10000 `decoded_depth`, number literals grammatical
+    and in range `decoded_numsOK` and written verbatim, text valid UTF-8 `decoded_utf8`.)  This is about
+    the JSON tree `JVal`; jqawk itself converts number literals to doubles before writing — that path
+    is `file_round_trip_partial`. -/
+theorem decoded_rewritten (f : Bytes → Bool) (inp : Bytes) (t : Tail) (v : JVal) (rest : Bytes)
+    (h : decodeOne f inp t = .value v rest) :
+    decodeOne f (marshalIndent v) .eof = .value v [] :=
+  bytes_round_trip_sorted_partial f v (decoded_numsOK f inp t v rest h) (decoded_utf8 f inp t v rest h)
+    (decoded_sorted f inp t v rest h) (decoded_depth f inp t v rest h)
+
+/-- an input with a lone surrogate escape and an ill-formed byte: both are read as U+FFFD, and that
+    tree is then stable -/
+example : decodeOne numOk (b!"[\"\\ud800" ++ [0xFF] ++ b!"\", 1.50]") .eof
+    = .value (.arr [.str [0xEF, 0xBF, 0xBD, 0xEF, 0xBF, 0xBD], .num b!"1.50"]) [] := by rfl
+
+/-- Every document the decoder returns is `Plain` — the hypothesis of the tree-level round trip of
+    section 5 (`newValue_roundtrip`): keys pairwise distinct at every level (`decoded_sorted`) and
+    every number literal denotes a finite double (a grammatical number is never parsed to ±Inf/NaN:
+    `strconv`'s `special` needs a letter; a range error is excluded by `numOk`, a text ParseFloat
+    rejects is read as 0). -/
+theorem decoded_plain (f : Bytes → Bool) (inp : Bytes) (t : Tail) (j : JVal) (rest : Bytes)
+    (h : decodeOne f inp t = .value j rest) : j.Plain :=
+  plain_of_sorted j (decoded_sorted f inp t j rest h)
+    (finiteNums_of_numsOK f j (decoded_numsOK f inp t j rest h))
+
+/-- The whole path of an unmodified document, at byte level: input bytes → `decodeOne` → `j` →
+    `newValueJson` (heap) → `GetRootJson` (`-o`) → bytes → `decodeOne` again gives `j.norm`, all
+    bytes consumed.  Derived from `j` having been decoded: `Plain` (`decoded_plain`), depth, valid
+    UTF-8.  ONE hypothesis remains ("_partial"), the number hypothesis (a) on the RE-FORMATTED
+    literals: `NumsOK numOk j.norm`, i.e. each `F64.jsonFormat (F64.parse lit)` is a grammatical JSON
+    number within float64 range (`numLit_iff_grammar`) — the property of Go's float formatting that is
+    tested differentially and not proved.  (That the double is the SAME after re-reading —
+    shortest round trip — is not needed for this statement: `j.norm` is compared as text.) -/
+theorem file_round_trip_partial (inp : Bytes) (t : Tail) (j : JVal) (rest : Bytes)
+    (h : decodeOne numOk inp t = .value j rest)
+    (hn : NumsOK numOk j.norm) (s s' : Jqawk.St) (v : Val) (e : newValueJson j s = .ok v s') :
+    ∃ bytes, getRootJson { s' with heap := (s'.heap.alloc v).2, root := some (s'.heap.alloc v).1 } = some bytes ∧
+      decodeOne numOk bytes .eof = .value j.norm [] := by
+  obtain ⟨bytes, h1, _, h3⟩ := document_bytes_round_trip_partial j (decoded_plain numOk inp t j rest h)
+    (decoded_utf8 numOk inp t j rest h) (decoded_depth numOk inp t j rest h) hn s s' v e
+  exact ⟨bytes, h1, h3⟩
+
+/-- non-vacuity: a compact text with duplicate and unsorted keys is decoded; the result meets the
+    hypotheses -/
+example : ∃ v, decodeOne numOk b!"{\"b\":[1,{}],\"a\":\"x\",\"b\":[20,null]} " .more = .value v b!" " ∧
+    NumsOK numOk v ∧ Utf8OK v ∧ FiniteNums v ∧ NumsOK numOk v.norm := by
+  refine ⟨.obj [(b!"a", .str b!"x"), (b!"b", .arr [.num b!"20", .null])], by rfl, ?_, ?_, ?_, ?_⟩
+  · simp only [NumsOK, NumsOKMembers, NumsOKList, and_true, true_and, numLit_iff_grammar]
+    decide +kernel
+  · simp only [Utf8OK, Utf8OKMembers, Utf8OKList, and_true]
+    decide +kernel
+  · simp only [FiniteNums, FiniteNumsMembers, FiniteNumsList, and_true, true_and]
+    decide +kernel
+  · have e : (JVal.obj [(b!"a", .str b!"x"), (b!"b", .arr [.num b!"20", .null])]).norm
+        = .obj [(b!"a", .str b!"x"), (b!"b", .arr [.num b!"20", .null])] := by rfl
+    rw [e]
+    simp only [NumsOK, NumsOKMembers, NumsOKList, and_true, true_and, numLit_iff_grammar]
+    decide +kernel
 
 end Jqawk.C04
